@@ -1,8 +1,11 @@
-"""G -> X -> V pipeline for the Yata specification family (C01 C02 C04 C05 C06 C07 C08 C15 C17)."""
+"""G -> X -> V pipeline for the Yata specification family (C01 C02 C04 C05 C06 C07 C08 C15 C17).
+The rich-text stage (`run_all(..., kind="rich")`: formatting marks, rendered attributes, automatic formatting clean-up varied
+per replica; spec/Rich.tla) runs for every property of this engine and is also pulled in by seqapi_pipe for C03 / C17."""
 import hashlib
 import json
 import os
 import random
+import re
 import shutil
 import time
 
@@ -18,7 +21,12 @@ G_GROUPS = {
     "algm3": ("MC_Yata", "G_algm3.cfg", {"filter": "merged", "sample": {"quick": 2000, "thorough": 40000}}),
     "seq4": ("MC_Yata", "G_seq4.cfg", {}),
     "map4": ("MC_Yata", "G_map4.cfg", {}),
+    # rich text (spec/Rich.tla): a two-unit text, then every two / three free operations ins / del / FORMAT of two authors
+    "fmt3": ("MC_YataFmt", "G_fmt3.cfg", {"filter": "fmt", "sample": {"quick": 800, "thorough": 5000}}),
+    # three free operations: 8.8 M states after 25 min of exhaustive search (measured), hence seeded TLC simulation (thorough tier only)
+    "fmt4": ("MC_YataFmt", "G_fmt4.cfg", {"filter": "fmt", "sample": {"quick": 1500, "thorough": 5000}, "simulate": {"quick": 400, "thorough": 2500}}),
 }
+RICH_FAMILIES = ["fmtdup", "fmtovl", "fmtdel", "fmtovw", "fmtins", "fmthole"]
 D_GROUPS = {
     "d_seq": ("MC_Yata", "D_seq.cfg"),
     "d_map": ("MC_Yata", "D_map.cfg"),
@@ -26,11 +34,16 @@ D_GROUPS = {
     "d_seq4": ("MC_Yata", "D_seq4.cfg"),
     "d_map4": ("MC_Yata", "D_map4.cfg"),
     "d_nest4": ("MC_Yata", "D_nest4.cfg"),
+    # transcription of the automatic formatting clean-up (Rich.tla): every list of <= 5 / 6 items
+    "d_rich": ("MC_Rich", "D_rich5.cfg"),
+    "d_rich6": ("MC_Rich", "D_rich6.cfg"),
 }
 TIERS = {
-    "quick": {"design": ["d_seq", "d_map", "d_nest"], "gen": ["seq3", "map3", "nesta3", "nestm3", "alg3", "algm3", "script:gapdel", "script:gapdep", "script:gappar", "script:gapkey"], "random": 3},
-    "thorough": {"design": ["d_seq", "d_map", "d_nest", "d_seq4", "d_map4", "d_nest4"],
-                 "gen": ["seq3", "map3", "nesta3", "nestm3", "alg3", "algm3", "script:gapdel", "script:gapdep", "script:gappar", "script:gapkey", "seq4", "map4"], "random": 30},
+    "quick": {"design": ["d_seq", "d_map", "d_nest", "d_rich"], "gen": ["seq3", "map3", "nesta3", "nestm3", "alg3", "algm3", "script:gapdel", "script:gapdep", "script:gappar", "script:gapkey"], "random": 3,
+              "rich": ["fmt3"] + ["script:" + f for f in RICH_FAMILIES], "rich_random": 1},
+    "thorough": {"design": ["d_seq", "d_map", "d_nest", "d_seq4", "d_map4", "d_nest4", "d_rich", "d_rich6"],
+                 "gen": ["seq3", "map3", "nesta3", "nestm3", "alg3", "algm3", "script:gapdel", "script:gapdep", "script:gappar", "script:gapkey", "seq4", "map4"], "random": 30,
+                 "rich": ["fmt3", "fmt4"] + ["script:" + f for f in RICH_FAMILIES], "rich_random": 4},
 }
 
 
@@ -38,14 +51,21 @@ def _h(*a):
     return int(hashlib.sha256(("|".join(str(x) for x in a)).encode()).hexdigest()[:12], 16)
 
 
+def is_rich(gname):
+    return gname.startswith("fmt") or gname.startswith("script:fmt")
+
+
 def make_schedules(hists, gname, seed, authors=(1, 2)):
     """Turns TLC histories into executable schedules: adds the configuration (gc per replica, followers),
-    a second observer (9) that receives every update in emission order, and the closing syncs."""
+    a second observer (9) that receives every update in emission order, and the closing syncs.
+    Rich-text groups: the automatic formatting clean-up (`cf`) is varied per replica like gc, the observation
+    carries the attributed diff (`rich`)."""
     out = []
     for idx, h in enumerate(hists):
         bid = "%s-%06d" % (gname, idx)
         rnd = random.Random(_h(seed, bid))
-        nupd = sum(1 for s in h if s["a"] in ("ins", "del", "set", "rem"))
+        auth = tuple(sorted({s["r"] for s in h if s["a"] in ("ins", "del", "set", "rem", "fmt", "insa")} | set(authors)))
+        nupd = sum(1 for s in h if s["a"] in ("ins", "del", "set", "rem", "fmt", "insa"))
         steps = list(h)
         if gname.startswith("alg") and nupd >= 3 and idx % 2 == 1:
             # observer 9 receives everything as ONE nested merge: groups with duplicated heads, gaps and fillers in a seeded order
@@ -63,11 +83,27 @@ def make_schedules(hists, gname, seed, authors=(1, 2)):
         if nupd > 1:
             steps.append({"a": "svu", "u": list(range(1, nupd // 2 + 1))})
         # closing exchange: every author catches up from observer 8 (diff / full state alternate)
-        for j, a in enumerate(authors):
+        for j, a in enumerate(auth):
             steps.append({"a": "sync", "f": 8, "t": a, "how": "diff" if (idx + j) % 2 == 0 else "state", "sv": "own", "closing": True})
-        gcs = {a: rnd.random() < 0.7 for a in authors}
-        reps = [{"id": a, "gc": gcs[a]} for a in authors] + [{"id": 8, "gc": True}, {"id": 9, "gc": False}]
+        if is_rich(gname):
+            # the clean-up deletions of a replica travel in its state only: observer 8 collects what the authors cleaned,
+            # then everybody (observer 9 included) catches up from it once more
+            for a in auth:
+                steps.append({"a": "sync", "f": a, "t": 8, "how": "state", "sv": "own", "closing": True})
+            for j, a in enumerate((9,) + auth):
+                steps.append({"a": "sync", "f": 8, "t": a, "how": "state" if (idx + j) % 2 == 0 else "diff", "sv": "own", "closing": True})
+        gcs = {a: rnd.random() < 0.7 for a in auth}
+        reps = [{"id": a, "gc": gcs[a]} for a in auth] + [{"id": 8, "gc": True}, {"id": 9, "gc": False}]
         cfg = {"replicas": reps, "followers": idx % 3 == 0, "offset": "utf16" if idx % 2 == 0 else "bytes"}
+        if is_rich(gname):
+            # own random stream: the draws above stay what they were
+            r2 = random.Random(_h(seed, bid, "cf"))
+            on = {8: r2.random() < 0.75, 9: r2.random() < 0.25}
+            for a in auth:
+                on[a] = r2.random() < 0.5
+            for rp in reps:
+                rp["cf"] = on[rp["id"]]
+            cfg["rich"] = True
         out.append({"bid": bid, "cfg": cfg, "steps": steps})
     return out
 
@@ -94,6 +130,7 @@ def _cache_path(*parts):
 
 
 SCRIPT_SAMPLE = {"quick": 120, "thorough": 2500}
+RICH_SCRIPT_SAMPLE = {"quick": 40, "thorough": 150}
 
 
 def gen_script_family(fam, tier, workdir):
@@ -103,18 +140,25 @@ def gen_script_family(fam, tier, workdir):
     seed = vlib.seed()
     with open(os.path.join(vlib.SPEC, "scripts_index.json")) as f:
         cfgs = json.load(f)[fam]
+    if fam.startswith("fmt") and tier == "quick":
+        # quick tier: every second rich-text script (one TLC run each; the families list their variants in pairs), and none of
+        # the five-operation scripts (17 k behaviours, 20 s of TLC each); the thorough tier runs all 64
+        def nops(cfg):
+            with open(os.path.join(vlib.SPEC, cfg)) as fh:
+                return int(re.search(r"MaxOps = (\d+)", fh.read()).group(1))
+        cfgs = [c for i, c in enumerate(cfgs) if i % 2 == 0 and nops(c) <= 4]
 
     def one(cfg):
         g = vlib.generate("MC_YataScript", cfg, os.path.join(workdir, "script-" + cfg[:-4], "g"), workers=2, heap="2g", timeout=900)
         h = g["replay"]
         h.sort(key=lambda x: json.dumps(x, sort_keys=True))
-        n = SCRIPT_SAMPLE[tier]
+        n = (RICH_SCRIPT_SAMPLE if fam.startswith("fmt") else SCRIPT_SAMPLE)[tier]
         total = len(h)
         if len(h) > n:
             h = random.Random(_h(seed, cfg)).sample(h, n)
         return h, {"distinct": g["distinct"], "generated": g["generated"], "depth": g["depth"], "wall": g["wall"], "replay": total}
 
-    with ThreadPoolExecutor(max_workers=6) as ex:
+    with ThreadPoolExecutor(max_workers=max(1, min(6, int(os.environ.get("VERIF_PAR", "12")) // 2))) as ex:
         res = list(ex.map(one, cfgs))
     hists = [h for r in res for h in r[0]]
     stats = {"distinct": sum(r[1]["distinct"] for r in res), "generated": sum(r[1]["generated"] for r in res),
@@ -138,7 +182,16 @@ def gen_hists(gname, tier, workdir):
             json.dump({"hists": hists, "stats": stats}, f)
         return hists, stats
     module, cfg, opts = G_GROUPS[gname]
-    g = vlib.generate(module, cfg, os.path.join(workdir, gname, "g"))
+    if opts.get("simulate"):
+        # random walks through the generator model (each walk is a complete behaviour; TLC prints it in its final state)
+        g = vlib.run_tlc(module, cfg, os.path.join(workdir, gname, "g"), workers=2, timeout=1500, heap="3g",
+                         simulate="num=%d" % opts["simulate"][tier], extra=["-depth", "24", "-seed", str(_h(seed, gname) % (1 << 31))])
+        if g["error"] and not g["replay"]:
+            raise vlib.ToolError("G simulate %s failed: %s\n%s" % (gname, g["error"], g.get("tail", "")))
+        uniq = {json.dumps(h, sort_keys=True): h for h in g["replay"]}
+        g["replay"] = list(uniq.values())
+    else:
+        g = vlib.generate(module, cfg, os.path.join(workdir, gname, "g"))
     hists = g["replay"]
     total = len(hists)
     if opts.get("filter") == "nested":
@@ -146,6 +199,8 @@ def gen_hists(gname, tier, workdir):
         hists = [h for h in hists if any(s.get("k") in ("A", "M") for s in h)]
     if opts.get("filter") == "merged":
         hists = [h for h in hists if any(s["a"] == "dlv" and len(s["u"]) > 1 for s in h)]
+    if opts.get("filter") == "fmt":
+        hists = [h for h in hists if any(s["a"] == "fmt" for s in h)]
     hists.sort(key=lambda h: json.dumps(h, sort_keys=True))
     n = opts.get("sample", {}).get(tier)
     if n and len(hists) > n:
@@ -277,23 +332,67 @@ PREFIXES = {
 PROPS = sorted(PREFIXES)
 
 
-def run_all(tier, workdir):
+def rich_stats(scheds, tfile):
+    """Evidence only (no verdict): how many formatting behaviours ran, with how many clean-up replicas, and how often the
+    clean-up really deleted marks (deletions in the update event of a delivery / sync that the payload did not carry)."""
+    st = {"behaviours": len(scheds), "with_format_steps": 0, "format_steps": 0, "with_cleanup_replica": 0, "cleanup_on_replicas": 0,
+          "replicas": 0, "cleanup_events": 0, "marks_cleaned": 0, "behaviours_with_cleanup": 0, "inexecutable": 0}
+    for s in scheds:
+        nf = sum(1 for x in s["steps"] if x.get("a") in ("fmt", "insa"))
+        st["format_steps"] += nf
+        st["with_format_steps"] += 1 if nf else 0
+        on = sum(1 for r in s["cfg"]["replicas"] if r.get("cf"))
+        st["cleanup_on_replicas"] += on
+        st["replicas"] += len(s["cfg"]["replicas"])
+        st["with_cleanup_replica"] += 1 if on else 0
+    cf, marks, hit = {}, set(), False
+    with open(tfile) as f:
+        for ln in f:
+            e = json.loads(ln)
+            k = e.get("k")
+            if k == "reset":
+                st["behaviours_with_cleanup"] += 1 if hit else 0
+                cf, marks, hit = {r["id"]: bool(r.get("cf")) for r in e["cfg"]["replicas"]}, set(), False
+                continue
+            if k == "inexec":
+                st["inexecutable"] += 1
+                continue
+            for part in ("upd", "emit", "full"):
+                for u in (e.get(part) or {}).get("ins", []):
+                    if u.get("kind") == "fmt":
+                        marks.add(tuple(u["id"]))
+            if k in ("dlv", "sync") and cf.get(e.get("r", e.get("t"))):
+                got = {tuple(x) for x in e["upd"]["del"]} | {tuple(x) for x in (e.get("full") or {}).get("del", [])}
+                cl = {tuple(x) for x in e["emit"]["del"]} & marks - got
+                if cl:
+                    st["cleanup_events"] += 1
+                    st["marks_cleaned"] += len(cl)
+                    hit = True
+    st["behaviours_with_cleanup"] += 1 if hit else 0
+    return st
+
+
+def run_all(tier, workdir, kind="all"):
     """All generator groups and the seeded random runs of the tier: G per group, then ONE X run per kind and ONE V run
-    over the concatenated trace (saves the per-run JVM overhead). Cached by tree hash."""
+    over the concatenated trace (saves the per-run JVM overhead). Cached by tree hash.
+    kind = "rich": the rich-text groups (formatting marks, automatic clean-up varied per replica) and the rich random runs."""
     seed = vlib.seed()
-    cpath = _cache_path(vlib.tree_hash(), "yata", "all" + os.environ.get("VERIF_ONLY_GROUPS", ""), tier, seed)
+    cpath = _cache_path(vlib.tree_hash(), "yata", kind + os.environ.get("VERIF_ONLY_GROUPS", ""), tier, seed)
     if os.path.exists(cpath):
         with open(cpath) as f:
             r = json.load(f)
         r["cached"] = True
         return r
     plan = dict(TIERS[tier])
+    if kind == "rich":
+        plan["gen"], plan["random"] = plan["rich"], plan["rich_random"]
     only = os.environ.get("VERIF_ONLY_GROUPS")  # development aid (mutant triage): restrict to some groups, no random runs
     if only:
-        plan["gen"] = [g for g in only.split(",") if g]
-        plan["random"] = 0
+        plan["gen"] = [g for g in only.split(",") if g and g != "richrandom"]
+        plan["random"] = 1 if "richrandom" in only.split(",") else 0
+        kind = "rich" if plan["random"] else kind
     t0 = time.time()
-    wd = os.path.join(workdir, "yata-all")
+    wd = os.path.join(workdir, "yata-" + kind)
     shutil.rmtree(wd, ignore_errors=True)
     os.makedirs(wd)
     gstats, scheds = [], []
@@ -314,11 +413,15 @@ def run_all(tier, workdir):
     nrand = 0
     for i in range(plan["random"]):
         rs, rt = os.path.join(wd, "rs%d.ndjson" % i), os.path.join(wd, "rt%d.ndjson" % i)
-        rsch, ncr = vlib.run_x_random(rs, rt, ["--seed", str(_h(seed, i, "yata") % (1 << 31)),
-                    "--ops", str((12, 40, 30)[i % 3]), "--ext", "", "--gc-off", "0",
-                    "--rich", "1" if i % 3 == 2 else "0",  # every third run: XML trees, formatting marks, embeds, sub-document references
-                    "--wide", "3"],  # every third behaviour of every run: characters outside the BMP (surrogate pairs) in the texts
-                    150 if tier == "quick" else 400)
+        rargs = ["--seed", str(_h(seed, i, "yata") % (1 << 31)),
+                 "--ops", str((12, 40, 30)[i % 3]), "--ext", "", "--gc-off", "0",
+                 "--rich", "1" if i % 3 == 2 else "0",  # every third run: XML trees, formatting marks, embeds, sub-document references
+                 "--wide", "3"]  # every third behaviour of every run: characters outside the BMP (surrogate pairs) in the texts
+        if kind == "rich":
+            # formatted text on every behaviour, clean-up on for a seeded half of the replicas
+            rargs = ["--seed", str(_h(seed, i, "yata-rich") % (1 << 31)), "--ops", str((30, 14, 45)[i % 3]), "--ext", "", "--gc-off", "0", "--cf", "1",
+                     "--wide", "3"]
+        rsch, ncr = vlib.run_x_random(rs, rt, rargs, 150 if tier == "quick" else 400)
         xs["crashes"] = xs.get("crashes", 0) + ncr
         nrand += len(rsch)
         scheds += rsch
@@ -327,6 +430,7 @@ def run_all(tier, workdir):
         os.remove(rs)
         os.remove(rt)
     tv = time.time()
+    rstats = rich_stats(scheds, tfile) if kind == "rich" else None
     merged = vlib.validate("Trace_Yata", "Trace_Yata.cfg", tfile, os.path.join(wd, "v"), parallel=8)
     by_bid = {s["bid"]: s for s in scheds}
     bad = {}
@@ -349,7 +453,7 @@ def run_all(tier, workdir):
             if b in evs and 1 <= k <= len(evs[b]):
                 events[b] = json.loads(evs[b][k - 1])
     nt = [hashlib.sha256(json.dumps(s["steps"], sort_keys=True).encode()).hexdigest()[:16] for s in scheds if nontrivial(s)]
-    res = {"group": "yata-all", "engine": "yata", "gstats": gstats, "x": xs, "random_behaviours": nrand,
+    res = {"group": "yata-" + kind, "engine": "yata", "gstats": gstats, "x": xs, "random_behaviours": nrand, "rich": rstats,
            "x_wall": tv - tx, "v_wall": time.time() - tv, "merged": merged,
            "bad": {b: {"preds": p, "schedule": by_bid.get(b), "event": events.get(b)} for b, p in bad.items()},
            "nontrivial": sorted(set(nt)), "samples": [scheds[i] for i in (0, len(scheds) // 3, (2 * len(scheds)) // 3) if scheds],
@@ -453,6 +557,25 @@ def run_suite(tier, workdir):
     return res
 
 
+def add_rich_evidence(ev, rr):
+    """evidence of the rich-text stage (spec/Rich.tla): formatting behaviours validated, clean-up replicas, clean-up events"""
+    for g in rr["gstats"]:
+        ev.add_tlc(G_GROUPS[g["group"]][1] if g["group"] in G_GROUPS else g["group"], {"distinct": g["distinct"], "generated": g["generated"], "depth": g["depth"],
+                                              "wall": g["wall"], "replay": [0] * g["replay"]}, "G")
+    ev.add_v("rich text: formatting groups + %d rich random behaviours (clean-up varied per replica)" % rr["random_behaviours"],
+             rr["merged"], rr["nontrivial"], rr["v_wall"])
+    dk = {}
+    for d in rr["merged"]["drift"]:
+        dk.setdefault(d[1], set()).add(d[0])
+    ev.cov["rich"] = dict(rr.get("rich") or {})
+    ev.cov["rich"]["groups"] = [{k: g[k] for k in ("group", "replay", "used")} for g in rr["gstats"]]
+    ev.cov["rich"]["drift_behaviours"] = {k: len(v) for k, v in sorted(dk.items())}
+    ev.cov["rich"]["rule"] = ("formatting behaviours = TLC-enumerated histories with format steps (free group fmt3: all ins/del/format operations "
+                              "on a two-unit text by two authors; scripted families fmtdup/fmtovl/fmtdel/fmtovw/fmtins/fmthole: every exchange among "
+                              "the authors and every (merged) delivery order) plus seeded random rich-text runs; cleanup_formatting is drawn per "
+                              "replica; cleanup_events = deliveries/syncs whose transaction deleted marks no delivered deletion named")
+
+
 def check(prop, tier):
     ev = vlib.Evidence(prop, tier)
     bt = vlib.build_harness("yx")
@@ -470,6 +593,9 @@ def check(prop, tier):
         ev.sample(s)
     results = [r]
     if not os.environ.get("VERIF_ONLY_GROUPS"):
+        rr = run_all(tier, wd, kind="rich")
+        results.append(rr)
+        add_rich_evidence(ev, rr)
         sr = run_suite(tier, wd)
         results.append(sr)
         ev.add_v("repository test-suite with hook H3 (%d tests, %d skipped)" % (sr["tests"], len(sr["skipped"])), sr["merged"], [], sr["v_wall"])
